@@ -310,8 +310,11 @@ def gen_R(rng):
                 dist[i][j] = dist[j][i] if (sym and j < i) else rng.randint(0, 7)
     mu = [Fraction(rng.randint(0, 60), 4) for _ in range(L)]
     first = [[rng.randint(-4, 4) for _ in range(d)] for _ in range(L)]
-    second = [rng.choice([Fraction(1, 2), Fraction(1), Fraction(2), Fraction(4), Fraction(-2), Fraction(1, 4)])
+    second = [rng.choice([Fraction(1, 2), Fraction(1), Fraction(2), Fraction(4), Fraction(-2), Fraction(1, 4),
+                          Fraction(0), Fraction(1, 2 ** 60), Fraction(-1, 2 ** 60)])
               for _ in range(d)]
+    if all(v == 0 for v in second):
+        second[0] = Fraction(1)
     return {"mode": "R", "N": n, "L": L, "d": d, "lm": lm, "dist": dist, "mu": mu, "first": first,
             "second": second}
 
@@ -475,6 +478,16 @@ def impl_line(c):
     raise ValueError(m)
 
 
+EPS = 2.0 ** -52
+
+
+def keep_flags(second, L):
+    """triangulate (7bdf733): second(i) > second.cwiseAbs().maxCoeff() * n_landmarks * epsilon, evaluated in
+    binary64 exactly as the C++ does ((max * L) * eps; both products are exact unless max*L overflows 53 bits)"""
+    thr = max(abs(float(v)) for v in second) * L * EPS
+    return [1 if float(v) > thr else 0 for v in second]
+
+
 def rel_close(a, b, tol, scale):
     return abs(a - b) <= tol * max(scale, 1e-300)
 
@@ -592,8 +605,9 @@ def eval_R(ctx, exe, mexe, cases, st):
     impl = run_impl(ctx, exe, [impl_line(c) for c in cases])
     lines = []
     for c in cases:
-        lines.append("R %d %d %d %s %s %s %s %s" % (
-            c["N"], c["L"], c["d"], " ".join(map(str, c["lm"])), " ".join(tok(v) for v in flat(c["dist"])),
+        lines.append("R %d %d %d %s %s %s %s %s %s" % (
+            c["N"], c["L"], c["d"], " ".join(map(str, keep_flags(c["second"], c["L"]))),
+            " ".join(map(str, c["lm"])), " ".join(tok(v) for v in flat(c["dist"])),
             " ".join(tok(v) for v in c["mu"]), " ".join(tok(v) for v in flat(c["first"])),
             " ".join(tok(v) for v in c["second"])))
     model = run_model(ctx, mexe, lines)
@@ -621,6 +635,7 @@ def eval_R(ctx, exe, mexe, cases, st):
         n, d, L = c["N"], c["d"], c["L"]
         # spec on the implementation's own output (exact): landmark rows are copies, the others the formula
         bad = None
+        keep = keep_flags(c["second"], L)
         for x in range(n):
             if x in c["lm"]:
                 i = c["lm"].index(x)
@@ -628,6 +643,9 @@ def eval_R(ctx, exe, mexe, cases, st):
             else:
                 want = []
                 for col in range(d):
+                    if not keep[col]:
+                        want.append(Fraction(0))     # null eigenvalue: pseudo-inverse, coordinate zero
+                        continue
                     acc = Fraction(0)
                     for t in range(L):
                         dd = Fraction(c["dist"][x][c["lm"][t]])
@@ -714,8 +732,10 @@ def eval_T(ctx, exe, mexe, cases, st):
             ctx.mismatch(jsonable(c), "eigen-solver returned non-finite values")
             continue
         scaleB = max(1.0, max(abs(v) for v in B))
-        if min(lam) <= 1e-6 * scaleB:
-            st.skip("T_nonpositive_or_tiny_selected_eigenvalue")
+        keep = keep_flags(lam, L)
+        kept = [a for a in range(d) if keep[a]]
+        if not kept or min(lam[a] for a in kept) <= 1e-6 * scaleB:
+            st.skip("T_tiny_kept_eigenvalue")
             continue
         # oracle contracts: B V = V diag(lam), V^T V = I, s*s = lam
         Bm, Vm = mat(B, L, L), mat(V, L, d)
@@ -730,8 +750,8 @@ def eval_T(ctx, exe, mexe, cases, st):
                 g = sum(Vm[t][a] * Vm[t][b] for t in range(L))
                 if abs(g - (1.0 if a == b else 0.0)) > 1e-9:
                     bad = "V^T V != I at (%d,%d): %g" % (a, b, g)
-            if not rel_close(S[a] * S[a], lam[a], 1e-12, abs(lam[a])):
-                bad = "sqrt contract: s*s = %r, lam = %r" % (S[a] * S[a], lam[a])
+            if not rel_close(S[a] * S[a], max(lam[a], 0.0), 1e-12, abs(lam[a])):
+                bad = "sqrt contract: s*s = %r, max(lam, 0) = %r" % (S[a] * S[a], max(lam[a], 0.0))
         if any(lam[a] > lam[a + 1] * (1 + 1e-12) for a in range(d - 1)):
             bad = "selected eigenvalues not ascending: %s" % lam
         if bad:
@@ -742,13 +762,14 @@ def eval_T(ctx, exe, mexe, cases, st):
                           "eigenvalues are positive: " + str(EMB[:6]))
             continue
         scaleY = max(1.0, max(abs(v) for v in EMB))
-        tol = Fraction(1e-9 * scaleY * max(1.0, max(lam) / min(lam)))
+        tol = Fraction(1e-9 * scaleY * max(1.0, max(lam) / min(lam[a] for a in kept)))
         ds = " ".join(tok(v) for v in flat(c["dist"]))
         lms = " ".join(map(str, c["lm"]))
-        t_lines.append("T %d %d %d %s %s %s %s %s" % (n, L, d, lms, ds, " ".join(tok(v) for v in V),
+        ks = " ".join(map(str, keep))
+        t_lines.append("T %d %d %d %s %s %s %s %s %s" % (n, L, d, ks, lms, ds, " ".join(tok(v) for v in V),
                                                        " ".join(tok(v) for v in lam), " ".join(tok(v) for v in S)))
-        pt_lines.append("PT %d %d %d %s %s %s %s %s %s %s" % (
-            n, L, d, tok(float(tol)), lms, ds, " ".join(tok(v) for v in rows["MU"]),
+        pt_lines.append("PT %d %d %d %s %s %s %s %s %s %s %s" % (
+            n, L, d, tok(float(tol)), ks, lms, ds, " ".join(tok(v) for v in rows["MU"]),
             " ".join(tok(v) for v in YL), " ".join(tok(v) for v in lam), " ".join(tok(v) for v in EMB)))
         t_idx.append((c, EMB, float(tol)))
     tm = run_model(ctx, mexe, t_lines)
@@ -915,7 +936,7 @@ def spectrum_ok(Bmat, d, positive_only=True, gap=1e-3, by_magnitude=False):
 
 
 F42_SIG = "F42-lmds-null-eigenvalue-division"
-F43_SIG = "F43-lisomap-ratio-one-selects-by-magnitude"
+F43_SIG = "F44-lisomap-ratio-one-selects-by-magnitude"
 
 
 def eval_E2(ctx, exe, mexe, cases, st):
@@ -1070,7 +1091,7 @@ def eval_E1(ctx, exe, mexe, cases, st):
             continue
         # Landmark Isomap (dense) selects the d largest eigenvalues of B B^T, i.e. by MAGNITUDE: when a negative
         # eigenvalue of the geodesic Gram matrix is among the d largest in magnitude the ratio = 1 clause fails
-        # by construction of the algorithm (finding F43, see ratio_one_lisomap_partial)
+        # by construction of the algorithm (finding F44, see ratio_one_lisomap_partial)
         magnitude_case = c["method"] == "lisomap" and not spectrum_ok(B0, d, by_magnitude=True)
         perm, Y, p1 = parse_api(impl[2 * i], n, d)
         _, Z, p2 = parse_api(impl[2 * i + 1], n, d)
@@ -1100,7 +1121,7 @@ def eval_E1(ctx, exe, mexe, cases, st):
                 if f43:
                     ctx.violation(rc, why, signature=F43_SIG)
                 else:
-                    ctx.note("OPEN F43 (not registered, not counted as a verdict): " + why)
+                    ctx.note("OPEN F44 (not registered, not counted as a verdict): " + why)
                 continue
             ctx.violation(rc, "with landmark_ratio = 1 the landmark method does not coincide with its non-landmark "
                           "counterpart modulo column signs (simple, positive leading spectrum): %s" % po)
@@ -1234,10 +1255,12 @@ def build(ctx):
     frontier flags f[], stream I only) and the extracted model, built concurrently.  -O0 -g0 and the reduced
     include set of harness/c11.cpp keep a cold build near 40 s of CPU per binary."""
     from concurrent.futures import ThreadPoolExecutor
+    # thorough tier: the real tapkee::embed dispatcher (all methods instantiated; ~150 s of CPU per binary)
+    api = [] if ctx.quick else ["C11_FULL_API"]
     with ThreadPoolExecutor(max_workers=3) as pool:
-        f1 = pool.submit(ctx.cpp, "harness/c11.cpp", extra=["-O0", "-g0"])
-        f2 = pool.submit(ctx.cpp, "harness/c11.cpp", name="fibheap_c11", defines=["TAPKEE_USE_FIBONACCI_HEAP"],
-                         extra=["-O0", "-g0"])
+        f1 = pool.submit(ctx.cpp, "harness/c11.cpp", defines=api, extra=["-O0", "-g0"])
+        f2 = pool.submit(ctx.cpp, "harness/c11.cpp", name="fibheap_c11",
+                         defines=["TAPKEE_USE_FIBONACCI_HEAP"] + api, extra=["-O0", "-g0"])
         f3 = pool.submit(ctx.extract)
         exe, fexe, mexe = f1.result(), f2.result(), f3.result()
     ctx.fib_exe = fexe
